@@ -507,6 +507,18 @@ func PropC04(c *vs.Case, f Factory) error {
 				}
 				contentWrites++
 			}
+			// the last sentence of C04, on what actually happened: no child is born with labels that the selector of the
+			// parent the sync worked on (its cached copy) does not satisfy - it would be orphaned by the next sync
+			if !scn.Cfg.GenerateSelector && variant != 2 {
+				for _, r := range t.Reqs {
+					if r.Epoch != t.N || r.Verb != "create" || !r.Accepted() || r.Post == nil || r.Def.Resource == "controllerrevisions" || r.Def.Resource == scn.Cfg.ParentResource {
+						continue
+					}
+					if !env.selectorMatches(cachedParent, LabelsOf(r.Post)) {
+						return withTrace(vs.Violf("C04/child-created-nonmatching", "%s created a child with labels %v, which the selector of the parent it was created for does not satisfy (the next sync would orphan it)", r.String(), LabelsOf(r.Post)), t)
+					}
+				}
+			}
 			switch {
 			case variant == 2 && !scn.Cfg.GenerateSelector:
 				c.Class("empty-selector")
